@@ -11,6 +11,40 @@ def tyOfName : String → Option DType
   | "empty" => some .empty | "include" => some .include | "after" => some .after | "run" => some .run
   | "tag" => some .tag | "temp" => some .temp | "write" => some .write | _ => none
 
+def sortStrs (l : List String) : List String := l.mergeSort (fun a b => decide (a ≤ b))
+
+def tagKeys (t : TagState) : String :=
+  let ks := (t.stored.map (fun kv => hex kv.1)) ++ (match t.listening with | some l => [hex l] | none => [])
+  if ks.isEmpty then "-" else "+".intercalate (sortStrs ks)
+
+/-- setup ops: `c<hex>` create, `s<hex>` try_store -/
+def tagSetup (ops : List String) (t : TagState) (acc : List String) : Option (TagState × List String) :=
+  match ops with
+  | [] => some (t, acc.reverse)
+  | op :: rest =>
+    match op.toList with
+    | 'c' :: h =>
+      (match unhex (String.ofList h) with
+       | some name => (match t.create name with
+          | some t' => tagSetup rest t' ("ok" :: acc)
+          | none => tagSetup rest t ("err" :: acc))
+       | none => none)
+    | 's' :: h =>
+      (match unhex (String.ofList h) with
+       | some c => (match t.tryStore c with
+          | some t' => tagSetup rest t' ("ok" :: acc)
+          | none => tagSetup rest t ("err" :: acc))
+       | none => none)
+    | _ => none
+
+def tagLines (le : Str) (seq : Bool) (t0 : TagState) : List Str → TagState → List String → List String
+  | [], _, acc => acc.reverse
+  | l :: ls, t, acc =>
+    let r := (if seq then t else t0).injectLE le l
+    tagLines le seq t0 ls r.2 (s!"{hex r.1}/{tagKeys r.2}" :: acc)
+
+def splitList (s : String) : List String := if s = "-" then [] else s.splitOn ","
+
 def handle (line : String) : String :=
   match line.trimAscii.toString.splitOn " " with
   | ["detect", l] =>
@@ -27,6 +61,16 @@ def handle (line : String) : String :=
        | none => "N"
        | some d => s!"A {" ".intercalate (d.args.map hex)}")
     | _, _, _, _ => "bad-field"
+  | ["tags", le, mode, setup, lines] =>
+    match unhex le, (splitList lines).mapM unhex with
+    | some le, some ls =>
+      (match tagSetup (splitList setup) TagState.empty [] with
+       | some (t, rs) =>
+         let a := if rs.isEmpty then "-" else ",".intercalate rs
+         let b := tagLines le (mode == "seq") t ls t []
+         s!"{a} {tagKeys t} {if b.isEmpty then "-" else ",".intercalate b}"
+       | none => "bad-field")
+    | _, _ => "bad-field"
   | _ => "bad-op"
 
 partial def loop (h : IO.FS.Stream) (out : IO.FS.Stream) : IO Unit := do
